@@ -381,7 +381,7 @@ impl SpVec {
     //@| assert(i == es0[__it0.pos@ - 1].0 && a.v() == es0[__it0.pos@ - 1].1 && i < n);
     //@+ loop 0 end
     //@| if i < k { assert(tw(e1@) =~= tw(a1).push((i, a.v()))); assert(e2@ == a2); } else { assert(tw(e2@) =~= tw(a2).push(((i - k) as usize, a.v()))); assert(e1@ == a1); }
-    //@+ post
+    //@+ loop 0 after
     //@| lemma_wsel_done(es0, k as int, false, n0); lemma_wsel_done(es0, k as int, true, n0);
 }
 } // verus!
